@@ -14,15 +14,26 @@ import NdnModel.Basic
     non-vacuity examples use opaque identifiers (`Name = Nat`); `NdnModel/CascadeLvs.lean` instantiates
     `N` with real names (lists of TLV-encoded components) and `allowed` with the Light VerSec checker.
   * `Checker.check` (the signing check, property C12) is the parameter `allowed pkt key` of the
-    environment (instantiated with the model of `Checker.check` in `NdnModel/CascadeLvs.lean`).
+    environment (instantiated with the model of `Checker.check` in `NdnModel/CascadeLvs.lean`).  It may
+    RAISE (`.error e`): `validate_name` has no `try`, `union_checker` has none, `NDNApp._wait_for_data`
+    calls the validator outside its `try`, and the only `except` of `CascadeChecker.validate` names
+    ValidationFailure / InterestTimeout / InterestNack (tables `Ndn.Gen.C14`), so the exception of the
+    check reaches whoever awaits the validator, at every depth of the cascade: `Verdict.raise e`.
   * Key bits are `Key = (key type, identity)`; the cryptographic library's answer for "signature of
     `o` verifies under key bits `k`" (after `import_key` succeeded) is the abstract function
     `crypto k o`.  Nothing is assumed about it in the model; the theorems state the ideal-signature
     hypotheses explicitly.
-  * The network is a static `world : Name → fetch outcome`.  The NDNApp machinery
-    (`express_interest`, PIT, timeout) is reduced to: a Data whose name is the Interest's name
-    satisfies the Interest and is handed to `next_level`; Nack / timeout / no answer / a Data of
-    another name (dropped by the PIT) make `express_interest` raise, which `validate` catches.
+  * The network is a static `world : Interest → fetch outcome`: what comes back for a certificate
+    Interest, as a function of the WHOLE Interest (name, CanBePrefix, MustBeFresh, lifetime).  The only
+    Interest the validator ever sends for a key locator `kn` is `certInterest kn` (exact name,
+    MustBeFresh, default lifetime; theorem `Ndn.C14.log_only_cert_interests`, generated table
+    `Ndn.Gen.C14.fetchKwargs`).  The NDNApp machinery (`express_interest`, PIT, timeout) is the function
+    `express`: the Data the network returns passes the pending-Interest test (`pitPasses`, the test of
+    `InterestTreeNode.satisfy` for an Interest without implicit digest, property C03) iff it has the
+    Interest's name or the Interest is CanBePrefix, and is then handed to `next_level`; Nack / timeout /
+    no answer / a Data that does not pass (dropped by the PIT: the Interest times out) make
+    `express_interest` raise, which `validate` catches.  Key locators that name a certificate by its
+    full name (with a trailing implicit digest) are outside the model.
   * Non-termination (certificate loops) is fuel exhaustion = *no verdict* (`none`).
 -/
 namespace Ndn.Cascade
@@ -66,11 +77,23 @@ inductive Verdict where
   | accept | reject | raise (e : PyErr)
   deriving DecidableEq, Repr
 
+/-- an Interest as the network sees it (`InterestParam`; lifetime in milliseconds) -/
+structure Interest (N : Type) where
+  name        : N
+  canBePrefix : Bool
+  mustBeFresh : Bool
+  lifetime    : Nat
+  deriving DecidableEq, Repr
+
+/-- `self.app.express_interest(name=cert_name, must_be_fresh=True, can_be_prefix=False, validator=…)`:
+    the Interest sent for a key locator; the lifetime is `InterestParam`'s default -/
+def certInterest {N : Type} (kn : N) : Interest N := ⟨kn, false, true, 4000⟩
+
 /-- everything a validator instance is built from, plus the network it talks to -/
 structure Env (N : Type) where
-  allowed    : N → N → Bool                -- checker.check(pkt_name, key_name)
+  allowed    : N → N → Except PyErr Bool   -- checker.check(pkt_name, key_name); `.error`: it raises
   crypto     : Key → Obj N → Bool          -- verify_* of the crypto library
-  world      : N → Option (Outcome N)      -- what fetching a name yields (`none` = no answer)
+  world      : Interest N → Option (Outcome N)   -- what the network returns for an Interest (`none` = no answer)
   anchorName : N
   anchorKey  : Key
 
@@ -112,11 +135,24 @@ end generic
 structure Res (N : Type) where
   verdict : Option Verdict       -- `none`: no verdict (fuel exhausted)
   cache   : Cache N
-  log     : List N               -- certificate Interests expressed, in order
+  log     : List (Interest N)    -- certificate Interests expressed, in order
   deriving Repr
 
 section generic
 variable {N : Type} [DecidableEq N]
+
+/-- the per-entry test of `InterestTreeNode.satisfy` (C03: `Ndn.Pit.passes`) for an Interest without
+    implicit digest, on a Data the network returned for it: a Data of the Interest's name passes; any
+    other (longer-named) Data only if the Interest is CanBePrefix -/
+def pitPasses (i : Interest N) (c : Obj N) : Bool := decide (c.name = i.name) || i.canBePrefix
+
+/-- `await self.app.express_interest(...)` up to the validator call: `some c` — the Data `c` satisfied
+    the pending Interest and is handed to the validator; `none` — InterestNack / InterestTimeout (a Nack,
+    no answer, or a Data the PIT does not take for this Interest) -/
+def express (E : Env N) (i : Interest N) : Option (Obj N) :=
+  match E.world i with
+  | some (.data c) => if pitPasses i c then some c else none
+  | _ => none
 
 /-- `union_checker(validate_name, cas_checker)` applied to `o`; `cas_checker.next_level` is the same
     union, so the recursion is on this function. -/
@@ -126,27 +162,28 @@ def validate (E : Env N) : Nat → Cache N → Obj N → Res N
     match o.keyLoc with
     | none => ⟨some .reject, st, []⟩                         -- validate_name: no key locator name
     | some kn =>
-      if E.allowed o.name kn = false then ⟨some .reject, st, []⟩      -- validate_name: checker.check
-      else if kn = E.anchorName then                                   -- CascadeChecker.validate
-        ⟨some (verifySig E.crypto E.anchorKey o), st, []⟩
-      else
-        match cacheLoad st kn with
-        | some k => ⟨some (verifySig E.crypto k o), st, []⟩
-        | none =>
-          match E.world kn with
-          | some (.data c) =>
-            if c.name ≠ kn then ⟨some .reject, st, [kn]⟩     -- not this Interest's Data: times out
-            else
+      match E.allowed o.name kn with                          -- validate_name: checker.check
+      | .error e => ⟨some (.raise e), st, []⟩                 -- … raises: nobody catches it
+      | .ok false => ⟨some .reject, st, []⟩
+      | .ok true =>
+        if kn = E.anchorName then                             -- CascadeChecker.validate
+          ⟨some (verifySig E.crypto E.anchorKey o), st, []⟩
+        else
+          match cacheLoad st kn with
+          | some k => ⟨some (verifySig E.crypto k o), st, []⟩
+          | none =>
+            match express E (certInterest kn) with
+            | none => ⟨some .reject, st, [certInterest kn]⟩   -- InterestNack / InterestTimeout caught
+            | some c =>
               let r := validate E fuel st c                   -- `validator=self.next_level`
               match r.verdict with
-              | none => ⟨none, r.cache, kn :: r.log⟩
+              | none => ⟨none, r.cache, certInterest kn :: r.log⟩
               | some .accept =>
                 match c.content with
-                | none => ⟨some .reject, r.cache, kn :: r.log⟩          -- `if not key_bits: return False`
-                | some k => ⟨some (verifySig E.crypto k o), cacheSave r.cache kn k, kn :: r.log⟩
-              | some .reject => ⟨some .reject, r.cache, kn :: r.log⟩     -- ValidationFailure caught
-              | some (.raise e) => ⟨some (.raise e), r.cache, kn :: r.log⟩  -- not caught: propagates
-          | _ => ⟨some .reject, st, [kn]⟩                    -- InterestNack / InterestTimeout caught
+                | none => ⟨some .reject, r.cache, certInterest kn :: r.log⟩   -- `if not key_bits: return False`
+                | some k => ⟨some (verifySig E.crypto k o), cacheSave r.cache kn k, certInterest kn :: r.log⟩
+              | some .reject => ⟨some .reject, r.cache, certInterest kn :: r.log⟩     -- ValidationFailure caught
+              | some (.raise e) => ⟨some (.raise e), r.cache, certInterest kn :: r.log⟩  -- not caught: propagates
 
 /-- one instance validating a sequence of packets (each with its own fuel), keeping its storage -/
 def runHist (E : Env N) : Cache N → List (Nat × Obj N) → Cache N
@@ -164,7 +201,8 @@ def runSys (envs : Nat → Env N) : (Nat → Cache N) → List (Nat × Nat × Ob
   | cs, (i, f, o) :: r => runSys envs (setCache cs i (validate (envs i) f (cs i) o).cache) r
 
 /-- the verdicts and Interest logs of a system history -/
-def traceSys (envs : Nat → Env N) : (Nat → Cache N) → List (Nat × Nat × Obj N) → List (Option Verdict × List N)
+def traceSys (envs : Nat → Env N) : (Nat → Cache N) → List (Nat × Nat × Obj N) →
+    List (Option Verdict × List (Interest N))
   | _, [] => []
   | cs, (i, f, o) :: r =>
     let x := validate (envs i) f (cs i) o
